@@ -51,11 +51,22 @@ def main(argv):
     if args.jobs:
         flt = lambda s: args.jobs in mod.describe(s)  # noqa: E731
     t0 = time.time()
+    cross = None
+    if not args.mutant:
+        # the encoding is first validated on the repository's own sample inputs: instrumented code == real code
+        from . import crosscheck  # pylint: disable=import-outside-toplevel
+
+        ok, cross = crosscheck.run()
+        if not ok:
+            print("HARNESS-ERROR: %s" % cross)
+            print("INCONCLUSIVE property=%s (exit 3)" % prop)
+            return 3
     res = runner.run_check(prop, HARNESS[prop], args.tier, seed=seed, budget_s=args.budget, mutant=args.mutant, jobs_filter=flt, max_workers=args.workers)
     if hasattr(mod, "post"):
         mod.post(res)
     code, lines, evidence = runner.finish(res)
     evidence["wall_s"] = round(time.time() - t0, 2)
+    evidence["coverage"]["encoding_crosscheck"] = cross
     if not args.no_evidence and not args.mutant and not args.jobs:
         runner.write_evidence(prop, evidence)
     cov = evidence["coverage"]
